@@ -21,7 +21,10 @@ CLAIMED = {
         'verdicts must agree, intermediate queries must have no effect and '
         'after every chunk each retained region must equal the stream bytes '
         'at its offsets (query plans up to every query after every chunk; '
-        'wrapper read() sessions with short reads). Evidence, not proof: '
+        'wrapper read() sessions with short reads); in a fifth of the runs '
+        'a second stream is inspected at the same time, interleaved by the '
+        'seeded scheduler, and neither verdict may depend on the other. '
+        'Evidence, not proof: '
         'schedules x contents are sampled; only the tiny engine sweep is '
         'complete.',
         note='Trusted: CPython, struct, the layout models in '
@@ -64,7 +67,9 @@ CLAIMED.update({
         'Hostile content also includes one structural unit of a format '
         '(volume descriptors, table headers, sparse headers, magic strings) '
         'repeated to the end of the stream and read in chunks no larger '
-        'than the unit.',
+        'than the unit, and every length/count/offset field of the '
+        'fixed-header formats over boundary and mid-range values; in 30 % '
+        'of the runs the caller keeps feeding after an error.',
         note='Trusted: context_info reports what is retained (the property '
         'is stated in terms of it).'),
     'C07': dict(
@@ -120,8 +125,10 @@ CLAIMED.update({
         'executed as its own simulated session; further runs sample up to '
         'three faults (also inside region_complete), twelve exception '
         'classes (empty message, unrenderable), source faults, short reads, '
-        'read(0), debug logging that really renders, and a reader that goes '
-        'on after the abort. Each session records what the '
+        'read(0), readinto() sources, debug logging that really renders, a '
+        'reader that goes on after the abort, and an earlier stream in the '
+        'same process built from the same allowed_formats list. Each '
+        'session records what the '
         'source produced, every eat_chunk call and outcome, what the reader '
         'received and what surfaced, and is judged against the reference '
         'pipe: bytes unchanged and in order, non-expected failures never '
@@ -192,7 +199,10 @@ CLAIMED.update({
         'scratch directory; the remover itself may be switched out), with '
         'seven exception classes (incl. falsy instances) and new exceptions '
         'chained to the original; tasks are interleaved at every yield '
-        'point by the seeded scheduler. Outcome '
+        'point by the seeded scheduler (greenlets, baton-passed threads, or '
+        'threads additionally pre-empted at seeded line events inside '
+        'excutils.py / fileutils.py); exception_filter objects may be '
+        'shared between tasks. Outcome '
         'per task - which exception object leaves the construct (identity), '
         'that its traceback ends with the frames of the original raise, '
         'logger.error calls and their content, file-system effect - is '
@@ -218,7 +228,9 @@ CLAIMED.update({
         'size with seek errors; write_to_tempfile with nested missing '
         'directories, prefix/suffix, pre-existing files, injected '
         'write/close/mkstemp/makedirs errors, the directory removed between '
-        'two calls, and descriptor accounting by fstat.',
+        'two calls, descriptor accounting by fstat, and 2-3 checksum / '
+        'last_bytes calls in flight at once with every simulated read a '
+        'switch point.',
         note='A short os.write is not injected (outside the statement). '
         'delete_if_exists default remover (bound at import) is exercised '
         'with real files only.'),
